@@ -271,7 +271,7 @@ func samplerConfig(s samplerSpec) (any, string) {
 			{Name: "keeprest", SampleRate: 1},
 		}}, "RulesBasedSampler"
 	case "dynamic":
-		return &config.DynamicSamplerConfig{SampleRate: int64(max(s.Rate, 1)), ClearFrequency: config.Duration(30 * time.Second), FieldList: []string{"keep"}}, "DynamicSampler"
+		return &config.DynamicSamplerConfig{SampleRate: int64(max(s.Rate, 1)), ClearFrequency: config.Duration(30 * time.Second), FieldList: []string{"keep", "root.keep"}}, "DynamicSampler"
 	default: // keepall
 		return &config.DeterministicSamplerConfig{SampleRate: 1}, "DeterministicSampler"
 	}
